@@ -344,3 +344,48 @@ impl Default for ReaderState {
         }
     }
 }
+
+/// Verification hooks (off in every normal build): construct a reader state
+/// from its parts and look at the parts again.
+#[cfg(any(kani, quick_xml_verif))]
+impl ReaderState {
+    /// `state`: 0 = Init, 1 = InsideMarkup, 2 = InsideText, 3 = InsideEmpty, 4 = Done
+    pub(super) fn verif_new(
+        state: u8,
+        offset: u64,
+        last_error_offset: u64,
+        config: Config,
+        opened_buffer: Vec<u8>,
+        opened_starts: Vec<usize>,
+    ) -> Self {
+        Self {
+            offset,
+            last_error_offset,
+            state: match state {
+                0 => ParseState::Init,
+                1 => ParseState::InsideMarkup,
+                2 => ParseState::InsideText,
+                3 => ParseState::InsideEmpty,
+                _ => ParseState::Done,
+            },
+            config,
+            opened_buffer,
+            opened_starts,
+
+            #[cfg(feature = "encoding")]
+            encoding: EncodingRef::Implicit(UTF_8),
+        }
+    }
+
+    /// Returns `(state code, opened_buffer, opened_starts)`
+    pub(super) fn verif_parts(&self) -> (u8, &[u8], &[usize]) {
+        let state = match self.state {
+            ParseState::Init => 0,
+            ParseState::InsideMarkup => 1,
+            ParseState::InsideText => 2,
+            ParseState::InsideEmpty => 3,
+            ParseState::Done => 4,
+        };
+        (state, &self.opened_buffer, &self.opened_starts)
+    }
+}
